@@ -22,6 +22,7 @@ RULE = ("real aioftp client <-> server transfers on the virtual-time network; sa
 RULE += ("  " + 'Also: a back end returning short reads; 2-3 further sessions downloading the stored file at the same time; read() without a count must return everything up to end of file; client-side limits with one big write.')
 RULE += ("  " + 'Also: a history of earlier operations on the same file (STOR/APPE at offsets, DELE, replace by rename) tracked by the byte model; an observer session connected throughout; another session appending while several download.')
 RULE += ("  " + 'Also (round 7): another session looks at the file (MLST, MLSD, LIST) between two blocks of an upload; limits of 0 ("not limited") spelled out on both sides.')
+RULE += ("  " + 'Also (round 8): raw peers that read their download slowly or pause near its end, server with socket_timeout (226 only with every byte delivered); REST, the transfer command and other commands written in one piece on back ends whose calls suspend (the bytes are those of the commands in their order).')
 ASSUMPTIONS = ["REST+STOR/APPE on an existing file overwrites in place from the offset (what tests/test_restart.py fixes); "
                "REST beyond the end pads with NUL bytes when something is written",
                "REST on a missing file is an error (451) on every back end"]
